@@ -432,14 +432,42 @@ def check_wires(ctx: Ctx):
             raise AnchorError(m.short, "expected one self.append call")
         return cs[0], cs[0].args[1]
 
+    def controls_then_target(m, wl_p, tg_p):
+        """the wire list handed to append is <the resolved control list, in order> + [<the resolved target>]"""
+        c, a = append_arg(m)
+        if not (isinstance(a, ast.BinOp) and isinstance(a.op, ast.Add)):
+            ctx.undecided(m.short, f"controls then target: the wire list `{norm(a)}` is not <controls> + [<target>]")
+            return
+        left, right = a.left, a.right
+        # what do the two halves denote?  follow the (re-)bindings that precede the call
+        st_ = q.enclosing_stmt(m, c)
+        lv = q.value_at(m.body, st_, left) or left
+        rv = q.value_at(m.body, st_, right) or right
+
+        def derived_from(e, p) -> Optional[bool]:
+            """e is the parameter p itself or p with every element resolved through self[...], order kept"""
+            e = q.strip_wrappers(e)
+            if isinstance(e, ast.Name):
+                return e.id == p
+            if isinstance(e, (ast.ListComp, ast.GeneratorExp)) and len(e.generators) == 1 and not e.generators[0].ifs:
+                g = e.generators[0]
+                return norm(q.reversal_parity(g.iter)[0]) == p and q.reversal_parity(g.iter)[1] == 0 and norm(e.elt) in (f"self[{norm(g.target)}]", norm(g.target))
+            if isinstance(e, ast.Call) and isinstance(e.func, ast.Name) and e.func.id == "map" and len(e.args) == 2:
+                return norm(e.args[1]) == p
+            return None
+
+        l_ok = derived_from(lv, wl_p)
+        r_ok = isinstance(rv, ast.List) and len(rv.elts) == 1 and norm(rv.elts[0]) in (tg_p, f"self[{tg_p}]")
+        swapped = isinstance(lv, ast.List) and derived_from(rv, wl_p)
+        if l_ok is None and not swapped:
+            ctx.undecided(m.short, f"controls then target: the control half `{norm(lv)[:60]}` is not derived from `{wl_p}` in a form the tables know")
+            return
+        ctx.check(bool(l_ok) and r_ok, "DP-WIRES", m, "controls then target", "wl + [target]", f"wire list is `{norm(a)}` (= `{norm(lv)[:50]}` + `{norm(rv)[:30]}`): every consumer reads the LAST wire as the target", c)
+
     m = qc.methods.get("mcx")
-    c, a = append_arg(m)
-    ok = isinstance(a, ast.BinOp) and isinstance(a.op, ast.Add) and norm(a.left) == m.params[1] and norm(a.right) == f"[{m.params[2]}]"
-    ctx.check(ok, "DP-WIRES", m, "controls then target", "wl + [target]", f"wire list is `{norm(a)}`", c)
+    controls_then_target(m, m.params[1], m.params[2])
     m = qc.methods.get("mctrl")
-    c, a = append_arg(m)
-    ok = isinstance(a, ast.BinOp) and isinstance(a.op, ast.Add) and norm(a.left) == m.params[2] and norm(a.right) == f"[{m.params[3]}]"
-    ctx.check(ok, "DP-WIRES", m, "controls then target", "wl + [target]", f"wire list is `{norm(a)}`", c)
+    controls_then_target(m, m.params[2], m.params[3])
     for name in ("cx", "ccx", "cz", "swap", "cp"):
         m = qc.methods.get(name)
         if m is None:
